@@ -97,7 +97,8 @@ def pairOp (j : Json) : Json :=
       jbool (su.isPrefixOf sv),
       jbool (lu.isPrefixOf (serializeLru sv)),
       jbool (lcu.isPrefixOf (serializeLru cv)),
-      jbool (labelHost (specHost u.netloc) && labelHost (specHost v.netloc))
+      jbool (labelHost (specHost u.netloc) && labelHost (specHost v.netloc)),
+      jbool (decide (UnderRaw u v))
     ])
 
 /-- the answer of the real `split_suffix` stored under `key` (`null` or `[domain, suffix]`) -/
